@@ -148,6 +148,10 @@ func (c *Checker) Step(a Action, r Result) error {
 			return fmt.Errorf("write sent %d frame(s) although flushing is disabled", len(frames))
 		}
 	case KReadFrom:
+		if a.SrcErr && r.Err != "source" {
+			// io.ReaderFrom: any error except EOF encountered during the read is returned
+			return fmt.Errorf("readfrom returned err=%q although the source failed with a non-EOF error after %d bytes", r.Err, a.Len-r.SrcLeft)
+		}
 		if srcEnd {
 			// The source failed after handing out a.Len-SrcLeft bytes: all of
 			// them, and no more, are what ReadFrom may report as accepted.
@@ -164,7 +168,13 @@ func (c *Checker) Step(a Action, r Result) error {
 		}
 		c.acc = append(c.acc, a.Data()[:r.N]...)
 		c.wcalls++
-		if len(c.acc) >= r.Before.Size && len(c.acc) >= c.MinSize {
+		// The data fits the buffer when it is strictly smaller — or exactly as
+		// large and the source announced its end together with its last bytes
+		// (n > 0 with io.EOF or an error), so that the writer knows nothing
+		// follows; without that the writer has to make room before it can learn
+		// that the source is exhausted, which is not held against it.
+		endKnown := a.EOFWithData && !a.Stall && a.Len > 0
+		if over := len(c.acc) - r.Before.Size; (over > 0 || (over == 0 && !endKnown)) && len(c.acc) >= c.MinSize {
 			c.fits = false
 		}
 		if c.Cfg.NoFlush && len(frames) > 0 {
